@@ -162,3 +162,62 @@ func c13PositiveTimeout(ctx *core.Ctx, r *RT) {
 		ctx.Unresolved("C13.R8", "FContext.SetTimeout", "no timeout encoder found")
 	}
 }
+
+// c13OneBudget — C13.R9: a call has one timeout budget. On every path through
+// Request / Oneway (helpers of the package included) at most one clock is
+// started from the FContext's timeout: ToContext(fctx), context.WithTimeout /
+// WithDeadline, time.After / NewTimer / AfterFunc. Two clocks in sequence (one
+// for the send phase, one for the wait) let the call return as late as twice
+// the timeout.
+func c13OneBudget(ctx *core.Ctx, r *RT) {
+	ctx.Rule("C13.R9", "one timeout budget per call: no path through Request/Oneway starts a second clock from the FContext's timeout", 4)
+	tc := r.FnOpt("ToContext")
+	isClock := func(in ssa.Instruction) bool {
+		c, ok := ssax.AsCall(in)
+		if !ok {
+			return false
+		}
+		if tc != nil && c.Static == tc {
+			return true
+		}
+		switch c.FullName() {
+		case "context.WithTimeout", "context.WithDeadline", "time.After", "time.NewTimer", "time.AfterFunc", "time.Tick", "time.NewTicker":
+			return true
+		}
+		return false
+	}
+	for _, m := range []string{"Request", "Oneway"} {
+		for _, fn := range r.Impl("FTransport", m) {
+			if len(fn.Blocks) == 0 {
+				continue
+			}
+			// helpers count with every one of their returns (a helper that reports the
+			// send error still spent its clock); ToContext's inner WithTimeout is the same clock
+			memo := map[*ssa.Function]int{}
+			var maxClocks func(g *ssa.Function, d int) int
+			maxClocks = func(g *ssa.Function, d int) int {
+				if v, ok := memo[g]; ok {
+					return v
+				}
+				memo[g] = 0
+				_, hi := ssax.CountOnPathsToW(g, nil, func(in ssa.Instruction) (int, int) {
+					if isClock(in) {
+						return 1, 1
+					}
+					if c, ok := in.(*ssa.Call); ok && d > 0 {
+						if h := c.Call.StaticCallee(); h != nil && h.Pkg == fn.Pkg && len(h.Blocks) > 0 && h != tc {
+							n := maxClocks(h, d-1)
+							return 0, n
+						}
+					}
+					return 0, 0
+				}, func(*ssa.Return) bool { return true })
+				memo[g] = hi
+				return hi
+			}
+			mx := maxClocks(fn, 3)
+			ctx.Check(mx <= 1, "C13.R9", ssax.Name(fn)+" › at most one timeout clock per call", fnPos(r, fn), sprintf("at most %d clock(s) on any path", mx),
+				sprintf("a path through the call starts %d clocks from the context's timeout (e.g. one in the send helper and another for the wait): the budget restarts between the phases, so a peer that stalls the write for a while and then never answers keeps the caller for up to twice the timeout", mx))
+		}
+	}
+}
